@@ -590,6 +590,9 @@ func (s *Serializer) Deserialize(src []byte, dst *ParsedJson) (*ParsedJson, erro
 
 		tagDst := uint64(t) << 56
 		if nSkips > 0 && tag != TagNop {
+			if off+nSkips > len(dst.Tape) {
+				return dst, errors.New("nop tags extended beyond tape")
+			}
 			// We owe skips. Add with jumps
 			for i := 0; i < nSkips; i++ {
 				dst.Tape[off] = (uint64(TagNop) << JSONTAGOFFSET) | uint64(nSkips-i)
@@ -604,6 +607,9 @@ func (s *Serializer) Deserialize(src []byte, dst *ParsedJson) (*ParsedJson, erro
 			if len(values) < 16 {
 				return dst, fmt.Errorf("reading %v: no values left", tag)
 			}
+			if off+1 >= len(dst.Tape) {
+				return dst, fmt.Errorf("reading %v: value extends beyond tape", tag)
+			}
 			sOffset := binary.LittleEndian.Uint64(values[:8])
 			sLen := binary.LittleEndian.Uint64(values[8:16])
 			values = values[16:]
@@ -615,6 +621,9 @@ func (s *Serializer) Deserialize(src []byte, dst *ParsedJson) (*ParsedJson, erro
 			if len(values) < 8 {
 				return dst, fmt.Errorf("reading %v: no values left", tag)
 			}
+			if off+1 >= len(dst.Tape) {
+				return dst, fmt.Errorf("reading %v: value extends beyond tape", tag)
+			}
 			dst.Tape[off] = tagDst
 			dst.Tape[off+1] = binary.LittleEndian.Uint64(values[:8])
 			values = values[8:]
@@ -623,6 +632,12 @@ func (s *Serializer) Deserialize(src []byte, dst *ParsedJson) (*ParsedJson, erro
 			// Tape contains full value
 			if len(values) < 16 {
 				return dst, fmt.Errorf("reading %v: no values left", tag)
+			}
+			if off+1 >= len(dst.Tape) {
+				return dst, fmt.Errorf("reading %v: value extends beyond tape", tag)
+			}
+			if Tag(values[7]) != TagFloat {
+				return dst, fmt.Errorf("reading %v: stored tag is not a float tag", tag)
 			}
 			dst.Tape[off] = binary.LittleEndian.Uint64(values[:8])
 			dst.Tape[off+1] = binary.LittleEndian.Uint64(values[8:16])
@@ -641,6 +656,9 @@ func (s *Serializer) Deserialize(src []byte, dst *ParsedJson) (*ParsedJson, erro
 			val += uint64(off)
 			if val > uint64(len(dst.Tape)) {
 				return dst, fmt.Errorf("%v extends beyond tape (%d). offset:%d", tag, len(dst.Tape), val)
+			}
+			if val < uint64(off)+2 {
+				return dst, fmt.Errorf("%v ends before it starts. offset:%d", tag, val)
 			}
 
 			dst.Tape[off] = tagDst | val
@@ -674,6 +692,9 @@ func (s *Serializer) Deserialize(src []byte, dst *ParsedJson) (*ParsedJson, erro
 		}
 	}
 	if nSkips > 0 {
+		if off+nSkips > len(dst.Tape) {
+			return dst, errors.New("nop tags extended beyond tape")
+		}
 		// We owe skips. Add with jumps
 		for i := 0; i < nSkips; i++ {
 			dst.Tape[off] = (uint64(TagNop) << JSONTAGOFFSET) | uint64(nSkips-i)
